@@ -22,6 +22,7 @@ Quantified over: {p['quantifier']['text']}
 Rules:
 - Work ONLY in your own scratch git worktree. Create it with:  git -C /repo worktree add /tmp/wt-{pid}{variant} HEAD   (work inside /tmp/wt-{pid}{variant}). NEVER edit anything under /repo itself and NEVER read or write anything under /verif.
 - The change must need something specific to manifest: a particular interleaving, a multi-step sequence of operations, an unusual input/operand value, a boundary value, or two cooperating sites that each look fine alone. It must NOT be something ordinary use would expose at once, and it must NOT be caught by the existing tests.
+- Do NOT use `git stash` (the stash is shared by all worktrees of /repo; to get a baseline use `git diff > /tmp/my.diff; git checkout -- .; ...; git apply /tmp/my.diff` inside your own worktree).
 - Keep the change small (a few lines), plausible as a real regression/refactoring slip. {hint}
 - The existing pinned test suite must still pass with your change. Run it inside your worktree:  cd /tmp/wt-{pid}{variant} && /venv/bin/python -m pytest -q -p no:cacheprovider --timeout=900 --continue-on-collection-errors -x -q 2>&1 | tail -5   (about 412 tests pass; 17 tests with 'llama' in their id fail both before and after because the Rust extension module is not built - ignore those exact failures; to save time you may run only the test files relevant to your change plus a final full run).
 - Python code is imported with PYTHONPATH=<worktree> FORCE_BINJA_MOCK=1 /venv/bin/python ; import `from binja_test_mocks import binja_api` before importing sc62015.arch or the lifter.
